@@ -4,7 +4,7 @@ import archdispatch
 import archlib
 
 ID = "C07"
-PROOF_MODULES = ["PyribsProofs.C07", "PyribsProofs.C15", "PyribsProofs.C14b"]
+PROOF_MODULES = ["PyribsProofs.C07", "PyribsProofs.C15", "PyribsProofs.C15b", "PyribsProofs.C14b"]
 THEOREMS = [
     "Pyribs.C07.placed_addBatch",
     "Pyribs.C07.placed_addSingle",
@@ -16,6 +16,7 @@ THEOREMS = [
     "Pyribs.C07.nonvacuous",
     "Pyribs.C15.remap_placed",
     "Pyribs.C14b.prox_self_retrieval",
+    "Pyribs.C15b.good_history",
 ]
 RULE = ("lock-step histories (add / add_single / clear / retrieve / retrieve_single / sample_elites) on every "
         "fixed-cell archive kind, dtype and extra-field layout; after every add all stored measures are retrieved "
